@@ -34,6 +34,9 @@ class RuleAutomaton:
         self.misordered = False  # an object list was supplied while no subject was known (no claim made)
 
     def step(self, name: str, arg=NOARG):
+        if name == "APPLY":
+            # applying an incomplete / contradictory rule must raise; a misordered history carries no claim
+            return None if (self.final() == "complete" or self.misordered) else "REJECT"
         if name == "modules_that":
             self.nxt = "S"
         elif name in MODULE_SPEC:
@@ -98,6 +101,8 @@ class LayerRuleAutomaton:
             return None
         if self.inner is None:
             return "REJECT"
+        if name == "APPLY":
+            return self.inner.step("APPLY")
         if name == "are_named":
             layers = arg if isinstance(arg, list) else [arg]
             if self.inner.nxt == "S" and (isinstance(arg, list) or self.inner.subj):
